@@ -52,6 +52,9 @@ type c04 struct {
 func (c *c04) Begin(w *sim.World) { c.total = new(big.Int); c.seen = map[string]bool{} }
 
 func (c *c04) Step(w *sim.World, s *sim.Step) *Viol {
+	if v := recvResponses("C04", s); v != nil {
+		return v
+	}
 	denom := w.Model.L.NDenom()
 	if s.Op.Kind == "tx" {
 		mints := ofKind(s.Calls, "mint")
@@ -221,7 +224,7 @@ var allAdmin = sim.AdminTypes
 
 var C04 = register(&HistProp{ID: "C04",
 	Genesis: func(t *rapid.T) *sim.GenSpec {
-		return sim.DrawGenesis(t, sim.GenOpts{UpperPairGen: true, MixedDenom: true, ManyUsed: true})
+		return sim.DrawGenesis(t, sim.GenOpts{UpperPairGen: true, MixedDenom: true, ManyUsed: true, OtherLocal: true})
 	},
 	Next: func(g *sim.G, i int) *sim.Op {
 		if op := queuedOp(g); op != nil {
